@@ -5,7 +5,7 @@ CKL = ('--bounds-check', '--signed-overflow-check', '--div-by-zero-check')
 H = 'C03/callrcu.c'
 D = ('_LGPL_SOURCE',)
 OBLIGATIONS = [
-    Ob(name='C03.O1.call_rcu_enqueue', harness=H, entry='h_call_rcu', defines=D, mode='legacy', unwind=3, min_covers=2, checks=CK, functions=('_call_rcu', 'wake_call_rcu_thread', 'call_rcu_wake_up'),
+    Ob(name='C03.O1.call_rcu_enqueue', harness=H, entry='h_call_rcu', defines=D, mode='legacy', unwind=3, native=True, min_covers=2, checks=CK, functions=('_call_rcu', 'wake_call_rcu_thread', 'call_rcu_wake_up'),
        desc='_call_rcu on helpers with 0..2 queued callbacks: node initialised, one enqueue at the tail, qlen+1, enqueue -> full barrier -> futex test, wake iff asleep and not real-time'),
     Ob(name='C03.O2.thread_iteration', harness=H, entry='h_thread_iteration', defines=D, mode='legacy', rules=('callrcu',), tier='B', bound='batch of <= 3 callbacks, one callback enqueued concurrently during the grace period',
        replace=('urcu_memb_synchronize_rcu', 'set_thread_cpu_affinity', 'urcu_memb_register_thread', 'urcu_memb_unregister_thread'),
